@@ -204,7 +204,11 @@ pub fn outcome_json<R: pest::RuleType>(
     match r {
         Err(msg) => json!({"k": "panic", "msg": msg.chars().take(200).collect::<String>(),
                            "empty_stack": msg.contains("called on empty stack")}),
-        Ok(Ok(pairs)) => json!({"k": "ok", "toks": pairs_json(pairs, name)}),
+        // walking the pairs is code under test too: a token stream that cannot be walked is an outcome, not a crash
+        Ok(Ok(pairs)) => match std::panic::catch_unwind(std::panic::AssertUnwindSafe(|| pairs_json(pairs, name))) {
+            Ok(toks) => json!({"k": "ok", "toks": toks}),
+            Err(_) => json!({"k": "panic", "msg": "walking the returned pairs panicked", "empty_stack": false}),
+        },
         Ok(Err(e)) => {
             let pos = match e.location {
                 pest::error::InputLocation::Pos(p) => p,
